@@ -510,6 +510,19 @@ func constructed() map[string]*spb.AFTOperation {
 			out["zero-group-v4-in-vrf"+sfx] = base(&gen.Op{NI: "VRF-A", Kind: gen.V4, Act: act, Key: "1.0.0.0/8", GroupNI: gni})
 		}
 	}
+	// leaves that only the schema constrains (length, pattern, range) on otherwise valid,
+	// fully populated operations
+	for _, act := range []string{gen.ADD, gen.REPLACE} {
+		for _, m := range [][]byte{[]byte("9 bytes!!"), []byte("sixteen bytes!!!")} {
+			sfx := fmt.Sprintf("-%d-bytes-%s", len(m), act)
+			out["metadata-too-long-v4"+sfx] = base(&gen.Op{NI: D, Kind: gen.V4, Act: act, Key: "1.0.0.0/8", Group: 1, Meta: m})
+			out["metadata-too-long-v6"+sfx] = base(&gen.Op{NI: "VRF-A", Kind: gen.V6, Act: act, Key: "2001:db8::/32", Group: 1, GroupNI: D, Meta: m})
+			out["metadata-too-long-mpls"+sfx] = base(&gen.Op{NI: D, Kind: gen.MPLS, Act: act, Key: "100", Group: 2, Meta: m})
+		}
+		out["junk-ip-address-nh-"+act] = base(&gen.Op{NI: D, Kind: gen.NH, Act: act, Key: "1", IP: "192.0.2.300", MAC: "00:00:5e:00:53:01"})
+		out["junk-mac-address-nh-"+act] = base(&gen.Op{NI: D, Kind: gen.NH, Act: act, Key: "2", IP: "192.0.2.1", MAC: "00:00:5e:00:53"})
+		out["pushed-label-out-of-range-nh-"+act] = base(&gen.Op{NI: D, Kind: gen.NH, Act: act, Key: "1", IP: "192.0.2.1", Pushed: []uint64{100, 1048576}})
+	}
 	out["empty-group-with-color"] = base(&gen.Op{NI: D, Kind: gen.NHG, Act: gen.ADD, Key: "1", Backup: gen.U(2), Color: gen.U(3)})
 	out["zero-member-index-only"] = base(&gen.Op{NI: D, Kind: gen.NHG, Act: gen.ADD, Key: "1", Hops: []gen.Hop{{Index: 0, Weight: gen.U(2)}}})
 	out["zero-member-index-replace"] = base(&gen.Op{NI: D, Kind: gen.NHG, Act: gen.REPLACE, Key: "1", Hops: []gen.Hop{{Index: 0}, {Index: 1}}})
